@@ -133,7 +133,9 @@ fn strict_type_eq(a: &Type, b: &Type) -> bool {
 }
 
 fn types(dir: &str, reps: usize, filter_texts: usize) -> Value {
-    let rows = read_ndjson(&format!("{dir}/print_types.ndjson"));
+    let mut rows = read_ndjson(&format!("{dir}/print_types.ndjson"));
+    // small types first, so that the mismatches kept for the replay files are the simplest ones
+    rows.sort_by_key(|r| r["texts"][0].as_str().map_or(0, str::len));
     let pool_rows = read_ndjson(&format!("{dir}/print_pool.ndjson"));
     let mut cells = HashMap::new();
     let pool: Vec<Variable> = pool_rows.iter().map(|r| value_from_wire(&r["v"], &mut cells)).collect();
@@ -507,7 +509,9 @@ fn run_program(interp: &Interpreter, text: &str) -> Result<Result<Variable, Erro
 }
 
 fn vals(dir: &str) -> Value {
-    let rows = read_ndjson(&format!("{dir}/print_vals.ndjson"));
+    let mut rows = read_ndjson(&format!("{dir}/print_vals.ndjson"));
+    // small values first, so that the mismatches kept for the replay files are the simplest ones
+    rows.sort_by_key(|r| r["toks"].as_array().map_or(0, Vec::len));
     let interp = Interpreter::without_stdlib();
     let mut mm = Mismatches::new(300);
     let (mut n, mut n_prog_ok, mut n_prog_overflow, mut max_depth) = (0u64, 0u64, 0u64, 0usize);
